@@ -11,7 +11,8 @@ from yalafi import parameters
 
 PROP_FILE = 'props/C10.v'
 
-ELEM = ['a', 'x', '1', '\\alpha', 'b_i', 'c^{2}', '\\frac{a}{b}', '\\unk{y}']
+ELEM = ['a', 'x', '1', '\\alpha', 'b_i', 'c^{2}', '\\frac{a}{b}', '\\unk{y}', '\\ldots', '\\dots',
+        'n!', 'q?']
 OPER = ['+', '=', '<', '\\leq', '\\to']
 SPACE = ['\\,', '~', '\\;', '\\ ']
 PUNCT = ['.', ',', ';', ':']
